@@ -1434,29 +1434,23 @@ class CircuitTemplate(AbstractBaseTemplate):
         if depth > self._depth:
             raise ValueError('Input depth does not match the hierarchical depth of the circuit.')
 
-        path = []
-        input_circuits = {}
-        inp_circuit = input_circuits
+        # collect the (existing or new) input circuit of every hierarchy level, from the outermost to the innermost
+        path = [f"input_lvl_{i}" for i in range(depth)]
+        levels = []
         net = self
-        for i in range(depth):
-            circuit_key = f"input_lvl_{i}"
-            if circuit_key not in net.circuits:
-                c = CircuitTemplate(name=circuit_key, path='none')
-                net = net.update_template(circuits={circuit_key: c})
-                inp_circuit[circuit_key] = {}
-            else:
-                inp_circuit[circuit_key] = net.circuits[circuit_key]
-            net = net.circuits[circuit_key]
-            if i < depth - 1:
-                inp_circuit = inp_circuit[circuit_key]
-            else:
-                net = net.update_template(nodes={node_key: node})
-                inp_circuit[circuit_key] = net
-            path.append(circuit_key)
-        else:
-            net = net.update_template(nodes={node_key: node})
+        for circuit_key in path:
+            net = net.circuits[circuit_key] if circuit_key in net.circuits \
+                else CircuitTemplate(name=circuit_key, path='none')
+            levels.append(net)
+
         if depth > 0:
-            net = self.update_template(circuits=input_circuits)
+            # add the input node to the innermost circuit and re-attach each circuit to its parent, innermost first
+            inner = levels[-1].update_template(nodes={node_key: node})
+            for i in range(depth - 2, -1, -1):
+                inner = levels[i].update_template(circuits={path[i + 1]: inner})
+            net = self.update_template(circuits={path[0]: inner})
+        else:
+            net = self.update_template(nodes={node_key: node})
         return "/".join(path + [node_key]), net
 
     def _get_nodes_with_var(self, var: tuple, nodes: list) -> list:
